@@ -236,7 +236,14 @@ impl AggregateStreamMerger {
                     let value = column_views[0]
                         .get(row_idx)
                         .ok_or_else(|| "missing bucket value".to_string())?;
-                    bucket = Self::scalar_to_u64(value);
+                    // Shards emit the bucket start as `bucket as i64`, which is negative for
+                    // instants before 1970; read it back the same way so that such buckets stay
+                    // distinct instead of collapsing into one missing bucket
+                    bucket = match value {
+                        ScalarValue::Int64(i) => Some(*i as u64),
+                        ScalarValue::Timestamp(t) => Some(*t as u64),
+                        other => Self::scalar_to_u64(other),
+                    };
                     metric_start_idx = 1;
                 }
             }
